@@ -4,7 +4,7 @@
 # (LLVM's SanitizerCoverage pass; stable rustc). Nothing else is instrumented.
 rustc="$1"; shift
 case " $* " in
-  *" --crate-name mv_sim "*|*" --crate-name mv_real "*)
+  *" --crate-name mv_sim "*|*" --crate-name mv_real "*|*" --crate-name bbtarget "*)
     exec "$rustc" "$@" -C passes=sancov-module -C llvm-args=-sanitizer-coverage-level=3 -C llvm-args=-sanitizer-coverage-trace-pc-guard ;;
   *) exec "$rustc" "$@" ;;
 esac
